@@ -1599,7 +1599,9 @@ Section Refine.
       rewrite Ns. cbn [negb andb].
       assert (El : (limit <? d_sz d) = false) by (apply N.ltb_ge; rewrite <- Hs; exact Hl).
       rewrite El, E1, Hs, N.eqb_refl, <- Hh, str_eqb_refl. cbn [negb orb]. rewrite Sj.
-      rewrite E2, E3, E4. reflexivity.
+      rewrite E2. rewrite <- update_x_fst in E3.
+      destruct (update_referrers_index_x _ _ _ _ _ _ _ _ _ (g, n2) RSUnsupported sj (RRemove d)) as [[[[a3 b3] c3] e3] cl].
+      cbn [fst] in E3. injection E3 as -> -> -> ->. rewrite E4. reflexivity.
     - rewrite Gm4. apply lookup_remove_eq.
     - exists n'', t'. cbn [run_op]. unfold predecessors. rewrite R. f_equal. f_equal.
       destruct (is_nil upd) eqn:En; [|reflexivity].
